@@ -37,18 +37,31 @@ import (
 	"verif/core"
 )
 
-// The six sets of DESIGN C15 run to length 4 (quick) / 6 (thorough); the two
-// additional sets (same-hash block ids, exact 2/3 boundary below the overflow)
-// and the overflow set are about arithmetic and block identity rather than
-// long histories and run one letter shorter.  The same streams through
+// Stream length bounds (Len: bare VoteSet quick/thorough, HeightVoteSet
+// quick/thorough).  Sets of up to 3 validators run to length 4 (quick) / 6
+// (thorough).  Signature verification in the replays makes a level of a
+// 4-validator set about five times as expensive as the one before, so the
+// 4-validator sets run to 4 ([1,2,3,4]) or 3 (the others) / 5 and, in the
+// thorough tier, the two sets of
+// DESIGN C15 ([1,2,3,4] first, then [1,1,1,1]) get their sixth letter as an
+// extension under a time cap (extStartCap/extCutCap): on an otherwise idle
+// machine both complete within two minutes; on a crowded one they are skipped
+// and reported as such.  The additional sets (same-hash block ids, exact 2/3
+// boundary below the overflow) and the overflow set are about arithmetic and
+// block identity rather than long histories.  The same streams through
 // HeightVoteSet run shorter (the routing layer adds no accounting of its own).
+const (
+	extStartCap = 6 * time.Minute  // an extension level is not started later than this
+	extCutCap   = 11 * time.Minute // a running extension level takes no new states after this
+)
+
 var configs = []config{
 	{Name: "n1", Powers: []int64{1}, Class: "small", Len: [4]int{4, 6, 3, 5}},
 	{Name: "n2", Powers: []int64{1, 1}, Class: "small", Len: [4]int{4, 6, 3, 5}},
 	{Name: "n3", Powers: []int64{1, 1, 1}, Class: "small", Len: [4]int{4, 6, 3, 5}},
 	{Name: "n3-same-hash", Powers: []int64{1, 1, 1}, Class: "small", SameHash: true, Len: [4]int{3, 6, 2, 5}},
-	{Name: "n4", Powers: []int64{1, 1, 1, 1}, Class: "small", Len: [4]int{4, 6, 3, 4}},
-	{Name: "n4-1234", Powers: []int64{1, 2, 3, 4}, Class: "small", Len: [4]int{4, 6, 3, 4}},
+	{Name: "n4-1234", Powers: []int64{1, 2, 3, 4}, Class: "small", Len: [4]int{4, 5, 3, 4}, Ext: true},
+	{Name: "n4", Powers: []int64{1, 1, 1, 1}, Class: "small", Len: [4]int{3, 5, 2, 4}, Ext: true},
 	// total = 2^62-1 = 3k: 2*total is the largest such product that still fits
 	// int64; {k,k} is exactly 2/3 (no majority), {k,k,1} exceeds it by one.
 	{Name: "n4-boundary", Powers: []int64{1537228672809129301, 1537228672809129301, 1537228672809129300, 1}, Class: "boundary", Len: [4]int{3, 5, 2, 4}},
@@ -85,6 +98,9 @@ type stats struct {
 	CommitStates int64          `json:"states_with_commit_tamper_family"`
 	Streams      string         `json:"streams_covered"`
 	WallS        float64        `json:"wall_s"`
+	Extension    string         `json:"extension,omitempty"` // one more level under a time cap: "completed" | "not started (time cap)" | "cut (time cap)"
+	ExtExpanded  int            `json:"extension_states_expanded,omitempty"`
+	ExtSkipped   int            `json:"extension_states_skipped,omitempty"`
 	Outcomes     map[string]int `json:"-"`
 }
 
@@ -96,6 +112,11 @@ type explorer struct {
 	samples *core.Sampler
 	st      *stats
 	execs   *int64
+	// failure classes whose minimal stream has been looked for
+	minimized *core.Counter
+
+	seen     map[string]*node
+	frontier []*node
 }
 
 func (e *explorer) kase(hist []uint8) kase {
@@ -110,7 +131,72 @@ func (e *explorer) report(hist []uint8, p *problem) {
 		sig = map[string]string{"site": p.site, "kind": p.kind, "powers": "overflow2x"}
 	}
 	k := e.kase(hist)
-	e.run.Report(sig, k, fmt.Sprintf("%s powers=%v path=%s stream=%v: %s", k.Config, k.Powers, k.Path, k.Letters, p.detail))
+	collect(sig, k, fmt.Sprintf("%s powers=%v path=%s stream=%v: %s", k.Config, k.Powers, k.Path, k.Letters, p.detail))
+}
+
+// Failures are collected per signature and handed to core.Run at the end, so
+// that the recorded exemplar of a class is the same in every run (shortest
+// stream, then configuration order, bare VoteSet first, then letter names)
+// whatever the scheduling of the workers was.
+type finding struct {
+	sig    map[string]string
+	k      kase
+	detail string
+	n      int
+	rank   string
+}
+
+var findings = struct {
+	sync.Mutex
+	m map[string]*finding
+}{m: map[string]*finding{}}
+
+func collect(sig map[string]string, k kase, detail string) {
+	ks := make([]string, 0, len(sig))
+	for a, b := range sig {
+		ks = append(ks, a+"="+b)
+	}
+	sort.Strings(ks)
+	key := strings.Join(ks, ";")
+	ci := 0
+	for i := range configs {
+		if configs[i].Name == k.Config {
+			ci = i
+		}
+	}
+	pi := 1
+	if k.Path == "voteset" {
+		pi = 0
+	}
+	rank := fmt.Sprintf("%03d/%02d/%d/%s", len(k.Letters), ci, pi, strings.Join(k.Letters, ","))
+	findings.Lock()
+	defer findings.Unlock()
+	f, ok := findings.m[key]
+	if !ok {
+		findings.m[key] = &finding{sig: sig, k: k, detail: detail, n: 1, rank: rank}
+		return
+	}
+	f.n++
+	if rank < f.rank {
+		f.k, f.detail, f.rank = k, detail, rank
+	}
+}
+
+func flush(run *core.Run) {
+	findings.Lock()
+	defer findings.Unlock()
+	keys := make([]string, 0, len(findings.m))
+	for k := range findings.m {
+		keys = append(keys, k)
+	}
+	sort.Strings(keys)
+	for _, k := range keys {
+		f := findings.m[k]
+		for i := 0; i < f.n; i++ {
+			run.Report(f.sig, f.k, f.detail)
+		}
+	}
+	findings.m = map[string]*finding{}
 }
 
 // result of offering one letter in a state
@@ -166,6 +252,13 @@ func (e *explorer) walk(hist []uint8, parentKey string, succ func(li uint8, r re
 		atomic.AddInt64(&e.st.Transitions, 1)
 		e.classes.Add(e.f.letters[li].Kind + " -> " + o.class + " (" + o.resp + ")")
 		for _, p := range ps {
+			if len(actual) > len(hist)+1 && e.minimized.Add(e.f.cfg.Name+"/"+e.path+"/"+p.site+"/"+p.kind+"/"+p.letter) {
+				// first failure of this class seen behind self-loop letters: record
+				// the minimal stream (history + this letter alone) if it fails alike
+				if e.reportMinimal(hist, uint8(li), p) {
+					continue
+				}
+			}
 			e.report(actual, p)
 		}
 		if stops(ps) {
@@ -184,6 +277,23 @@ func (e *explorer) walk(hist []uint8, parentKey string, succ func(li uint8, r re
 		}
 	}
 	return out
+}
+
+// reportMinimal executes hist+letter on a fresh instance and reports the failure
+// of the same class from there; false if it does not fail alike.
+func (e *explorer) reportMinimal(hist []uint8, li uint8, p *problem) bool {
+	w := e.start(hist)
+	if w == nil {
+		return false
+	}
+	_, ps := w.apply(int(li), modeCheck)
+	for _, q := range ps {
+		if q.site == p.site && q.kind == p.kind && q.letter == p.letter {
+			e.report(append(append([]uint8{}, hist...), li), q)
+			return true
+		}
+	}
+	return false
 }
 
 // tamper runs the commit tampering family on the live world of a result.
@@ -208,86 +318,113 @@ func (e *explorer) tamper(hist []uint8, r result) {
 	}
 }
 
+// bfs explores all streams up to maxLen letters.
 func (e *explorer) bfs(maxLen int) {
 	f := e.f
-	L := len(f.letters)
-	if L > 250 {
+	if len(f.letters) > 250 {
 		core.Fatal("alphabet too large")
 	}
 	root := newWorld(f, e.path)
-	seen := map[string]*node{root.implKey(): {hist: []uint8{}, key: root.implKey()}}
-	frontier := []*node{seen[root.implKey()]}
+	e.seen = map[string]*node{root.implKey(): {hist: []uint8{}, key: root.implKey()}}
+	e.frontier = []*node{e.seen[root.implKey()]}
 	e.st.StatesByLen = []int{1}
-	var mu sync.Mutex
-	for depth := 0; depth < maxLen && len(frontier) > 0; depth++ {
-		next := map[string]*node{}
-		core.Par(len(frontier), func(ix int) {
-			n := frontier[ix]
-			rs := e.walk(n.hist, n.key, func(li uint8, r result) {
-				if (ix*L+int(li))%7919 == 0 {
-					e.samples.Add(e.kase(append(append([]uint8{}, n.hist...), li)))
-				}
-				h := append(append(make([]uint8, 0, len(n.hist)+1), n.hist...), li)
-				mu.Lock()
-				if _, old := seen[r.key]; old {
-					e.st.Merges++
-					mu.Unlock()
-					return
-				}
-				nn, ok := next[r.key]
-				if !ok {
-					next[r.key] = &node{hist: h, key: r.key}
-					mu.Unlock()
-					// first visit of this canonical state: the commit tampering family
-					e.tamper(r.actual, r)
-					return
-				}
-				e.st.Merges++
-				// deterministic representatives: smallest and largest history
-				switch {
-				case lessHist(h, nn.hist):
-					if nn.alt == nil {
-						nn.alt = nn.hist
-					}
-					nn.hist = h
-				case nn.alt == nil || lessHist(nn.alt, h):
-					nn.alt = h
-				}
-				mu.Unlock()
-			})
-			if n.alt != nil && (depth <= maxLen-2 || maxLen <= 3) {
-				// the merge argument, tested: the other history must behave alike
-				rs2 := e.walk(n.alt, n.key, nil)
-				for li := 0; li < L; li++ {
-					r, r2 := rs[li], rs2[li]
-					atomic.AddInt64(&e.st.MergeChecks, 1)
-					if r.ok && r2.ok && (r.key != r2.key || r.o != r2.o) {
-						atomic.AddInt64(&e.st.MergesFailed, 1)
-						appendNote(e.run, fmt.Sprintf("failed merge %s/%s: %v vs %v + %s: %s %v | %s %v", f.cfg.Name, e.path, f.names(n.hist), f.names(n.alt), f.letters[li].Name, r.key, r.o, r2.key, r2.o))
-					}
-				}
-			}
-		})
-		frontier = frontier[:0]
-		keys := make([]string, 0, len(next))
-		for k := range next {
-			keys = append(keys, k)
-		}
-		sort.Strings(keys)
-		for _, k := range keys {
-			seen[k] = next[k]
-			frontier = append(frontier, next[k])
-		}
-		e.st.StatesByLen = append(e.st.StatesByLen, len(next))
+	for depth := 0; depth < maxLen && len(e.frontier) > 0; depth++ {
+		// the merge argument is tested on all but the last (largest) level
+		e.level(depth <= maxLen-2 || maxLen <= 3, nil)
 	}
-	e.st.States = len(seen)
-	// number of raw streams of length <= maxLen that the merged search stands for
+	e.st.MaxLen = maxLen
+	e.finish()
+}
+
+func (e *explorer) finish() {
+	e.st.States = len(e.seen)
+	// number of raw streams of length <= MaxLen that the merged search stands for
 	tot, pw := 0.0, 1.0
-	for d := 0; d <= maxLen; d++ {
+	for d := 0; d <= e.st.MaxLen; d++ {
 		tot += pw
-		pw *= float64(L)
+		pw *= float64(len(e.f.letters))
 	}
 	e.st.Streams = fmt.Sprintf("%.0f", tot)
+}
+
+// level expands every state of the frontier by every letter.  expired (may be
+// nil) is polled before each state; once it reports true the remaining states
+// are skipped and the level counts as incomplete (returns false).
+func (e *explorer) level(mergeCheck bool, expired func() bool) bool {
+	f := e.f
+	L := len(f.letters)
+	frontier, seen := e.frontier, e.seen
+	next := map[string]*node{}
+	var mu sync.Mutex
+	var skipped int64
+	core.Par(len(frontier), func(ix int) {
+		if expired != nil && expired() {
+			atomic.AddInt64(&skipped, 1)
+			return
+		}
+		n := frontier[ix]
+		rs := e.walk(n.hist, n.key, func(li uint8, r result) {
+			if (ix*L+int(li))%7919 == 0 {
+				e.samples.Add(e.kase(append(append([]uint8{}, n.hist...), li)))
+			}
+			h := append(append(make([]uint8, 0, len(n.hist)+1), n.hist...), li)
+			mu.Lock()
+			if _, old := seen[r.key]; old {
+				e.st.Merges++
+				mu.Unlock()
+				return
+			}
+			nn, ok := next[r.key]
+			if !ok {
+				next[r.key] = &node{hist: h, key: r.key}
+				mu.Unlock()
+				// first visit of this canonical state: the commit tampering family
+				e.tamper(r.actual, r)
+				return
+			}
+			e.st.Merges++
+			// deterministic representatives: smallest and largest history
+			switch {
+			case lessHist(h, nn.hist):
+				if nn.alt == nil {
+					nn.alt = nn.hist
+				}
+				nn.hist = h
+			case nn.alt == nil || lessHist(nn.alt, h):
+				nn.alt = h
+			}
+			mu.Unlock()
+		})
+		if n.alt != nil && mergeCheck {
+			// the merge argument, tested: the other history must behave alike
+			rs2 := e.walk(n.alt, n.key, nil)
+			for li := 0; li < L; li++ {
+				r, r2 := rs[li], rs2[li]
+				atomic.AddInt64(&e.st.MergeChecks, 1)
+				if r.ok && r2.ok && (r.key != r2.key || r.o != r2.o) {
+					atomic.AddInt64(&e.st.MergesFailed, 1)
+					appendNote(e.run, fmt.Sprintf("failed merge %s/%s: %v vs %v + %s: %s %v | %s %v", f.cfg.Name, e.path, f.names(n.hist), f.names(n.alt), f.letters[li].Name, r.key, r.o, r2.key, r2.o))
+				}
+			}
+		}
+	})
+	if skipped > 0 {
+		e.st.ExtSkipped = int(skipped)
+		e.st.ExtExpanded = len(frontier) - int(skipped)
+		return false
+	}
+	e.frontier = e.frontier[:0]
+	keys := make([]string, 0, len(next))
+	for k := range next {
+		keys = append(keys, k)
+	}
+	sort.Strings(keys)
+	for _, k := range keys {
+		seen[k] = next[k]
+		e.frontier = append(e.frontier, next[k])
+	}
+	e.st.StatesByLen = append(e.st.StatesByLen, len(next))
+	return true
 }
 
 var noteMu sync.Mutex
@@ -341,6 +478,7 @@ func main() {
 	run := core.Start("C15", "model_checking", "XSTATE")
 	classes := core.NewCounter()
 	samples := core.NewSampler(8, run.Seed)
+	minimized := core.NewCounter()
 	var execs int64
 
 	if run.ReplayPath != "" {
@@ -353,9 +491,10 @@ func main() {
 			core.Fatal("unknown config %q", k.Config)
 		}
 		f := newFixture(*cfg)
-		e := &explorer{run: run, f: f, path: k.Path, classes: classes, samples: samples, st: &stats{}, execs: &execs}
+		e := &explorer{run: run, f: f, path: k.Path, classes: classes, samples: samples, st: &stats{}, execs: &execs, minimized: minimized}
 		if k.Path == "subset-commits" {
 			checkSubsetCommits(f, func(p *problem, desc string) { e.report(nil, p) })
+			flush(run)
 			run.Finish(nil, nil)
 		}
 		w := newWorld(f, k.Path)
@@ -375,13 +514,16 @@ func main() {
 				break
 			}
 		}
+		flush(run)
 		run.Finish(nil, nil)
 	}
 
 	// bounds
+	t00 := time.Now()
 	tier := run.Pick(0, 1)
 	bounds := map[string]int{"max_validators": 4}
 	var all []*stats
+	var exts []*explorer
 	totalStates, maxLetters, subsetCommits := 0, 0, 0
 	var totalTrans, merges, mergeChecks, mergesFailed, commitStates int64
 	for _, cfg := range configs {
@@ -390,7 +532,7 @@ func main() {
 			maxLetters = len(f.letters)
 		}
 		{
-			e := &explorer{run: run, f: f, path: "subset-commits", classes: classes, samples: samples, st: &stats{}, execs: &execs}
+			e := &explorer{run: run, f: f, path: "subset-commits", classes: classes, samples: samples, st: &stats{}, execs: &execs, minimized: minimized}
 			subsetCommits += checkSubsetCommits(f, func(p *problem, desc string) { e.report(nil, p) })
 		}
 		for _, path := range []string{"voteset", "hvs"} {
@@ -398,44 +540,83 @@ func main() {
 			if path == "hvs" {
 				ml = cfg.Len[2+tier]
 			}
-			bounds["max_stream_length/"+cfg.Name+"/"+path] = ml
 			selfCheck(f, path)
-			st := &stats{Config: cfg.Name, Path: path, Letters: len(f.letters), MaxLen: ml}
-			e := &explorer{run: run, f: f, path: path, classes: classes, samples: samples, st: st, execs: &execs}
+			st := &stats{Config: cfg.Name, Path: path, Letters: len(f.letters)}
+			e := &explorer{run: run, f: f, path: path, classes: classes, samples: samples, st: st, execs: &execs, minimized: minimized}
 			t0 := time.Now()
 			e.bfs(ml)
 			st.WallS = float64(int(time.Since(t0).Seconds()*100)) / 100
 			all = append(all, st)
-			totalStates += st.States
-			totalTrans += st.Transitions
-			merges += st.Merges
-			mergeChecks += st.MergeChecks
-			mergesFailed += st.MergesFailed
-			commitStates += st.CommitStates
+			if cfg.Ext && path == "voteset" && !run.Quick() {
+				exts = append(exts, e)
+			} else {
+				e.seen, e.frontier = nil, nil
+			}
 		}
 	}
+	// Extension (thorough only): one more letter for the 4-validator sets of
+	// DESIGN C15, as far as the time budget allows.  The cap decides only how
+	// much is explored, never a verdict; what was completed is reported.
+	extensionsComplete := true
+	for _, e := range exts {
+		st := e.st
+		if time.Since(t00) > extStartCap {
+			st.Extension = "not started (time cap)"
+			extensionsComplete = false
+			continue
+		}
+		t0 := time.Now()
+		if e.level(false, func() bool { return time.Since(t00) > extCutCap }) {
+			st.Extension = "completed"
+			st.MaxLen++
+			e.finish()
+		} else {
+			st.Extension = "cut (time cap)"
+			extensionsComplete = false
+		}
+		st.WallS += float64(int(time.Since(t0).Seconds()*100)) / 100
+		e.seen, e.frontier = nil, nil
+	}
+	for _, st := range all {
+		bounds["max_stream_length/"+st.Config+"/"+st.Path] = st.MaxLen
+		totalStates += st.States
+		totalTrans += st.Transitions
+		merges += st.Merges
+		mergeChecks += st.MergeChecks
+		mergesFailed += st.MergesFailed
+		commitStates += st.CommitStates
+	}
+	flush(run)
 	if mergesFailed > 0 && run.Violations() == 0 {
 		core.Fatal("canonical key too coarse: %d merged histories behaved differently: %v", mergesFailed, run.Notes)
 	}
 	run.Finish(core.Coverage{
-		"states":                        totalStates,
-		"transitions":                   int(totalTrans),
-		"traces_validated_against_impl": int(totalTrans),
-		"evaluations":                   int(totalTrans),
-		"fresh_instances":               int(execs),
+		"states":      totalStates,
+		"transitions": int(totalTrans),
+		// transitions: letters offered with every oracle evaluated afterwards;
+		// traces: fresh real vote sets, each driven through one stream next to
+		// the reference; evaluations: every operation executed on the real code
+		// (replayed prefixes included) plus the subset commits
+		"traces_validated_against_impl": int(execs),
+		"evaluations":                   int(atomic.LoadInt64(&opsApplied)) + subsetCommits,
 		"distinct_nontrivial":           classes.Len(),
 		"rule":                          "per validator set and path (bare VoteSet | HeightVoteSet): breadth-first over ALL streams of letters up to the length bound of that set; a transition is: fresh real vote set + replay of the history + one letter with every oracle after that letter (letters that leave the canonical state unchanged are followed by the next letter on the same instance); streams are merged on the canonical key (reference state + primary vote per validator + existing per-block tallies, see main.go); every merged state except those of the last expanded level is expanded from two different histories whose answers must agree; the commit tampering family runs once per canonical state with a non-nil majority; plus VerifyCommit on the commit of every validator subset; distinct_nontrivial counts distinct (letter kind, reference outcome class, AddVote answer) triples observed",
 		"alphabet":                      "valid precommit of validator i for block A/B/nil (3n); wrong-signer; no signature; address of another validator; empty address; index -1; index n; validly signed vote for round+1 / prevote / height+1; SetPeerMaj23 by 2 peers x 3 blocks",
 		"max_alphabet":                  maxLetters,
 		"bounds":                        bounds,
 		"per_config":                    all,
+		"subset_commit_cases":           subsetCommits,
+		"extensions_completed":          extensionsComplete,
+		"extension_caps_s":              []int{int(extStartCap.Seconds()), int(extCutCap.Seconds())},
 		"merges":                        int(merges),
 		"merge_checks":                  int(mergeChecks),
 		"merges_failed":                 int(mergesFailed),
 		"commit_tamper_family_states":   int(commitStates),
 		"outcome_classes":               classes.Map(),
 		"samples":                       samples.List(),
-		"exhaustive":                    true,
+		// the space stated in "bounds" (lengths actually completed) was fully
+		// enumerated; a length-6 level cut by the time cap is not counted in it
+		"exhaustive": true,
 	}, []string{
 		"ed25519 signatures are unforgeable and deterministic: 'validly signed' is decided by construction of the letter (which key signed which content)",
 		"DESIGN §6.1: the tally is over the votes the set accepted; a conflicting vote is accepted only for a block some peer claimed (documented behaviour of VoteSet); soundness (reported => more than 2/3 of distinct valid signers) is checked over all offered votes",
